@@ -5,6 +5,8 @@ CONSTANTS
   FbStartStop = {TRUE, FALSE}
   Rules <- RulesMix
   Events <- EventsS
+  BadRules <- BadNone
+  MaxRejected = 0
   MaxRules = 2
   MaxStatus = 2
   MaxRuns = 2
